@@ -40,9 +40,13 @@ def declare(spec):
     spec.Class('PubSocket', fields={'closed': BOOL})
     spec.Class('Arbiter', qual='circus.arbiter:Arbiter', fields={
         'watchers': List(Ref('Watcher')), '_watchers_names': Dict(STR, Ref('Watcher')),
-        'evpub_socket': Ref('PubSocket'), 'sockets': VAL, '_stopping': BOOL, '_restarting': BOOL,
+        'evpub_socket': Ref('PubSocket'), 'sockets': Ref('SockSet'), '_stopping': BOOL, '_restarting': BOOL,
         '_exclusive_running_command': VAL, 'warmup_delay': REAL, 'socket_event': BOOL,
+        'ctrl': Ref('CtlHandle'), '_provided_loop': BOOL, 'loop': Ref('LoopHandle'), '_running': BOOL,
     })
+    spec.Class('CtlHandle', fields={'stopped': BOOL})      # the Controller as seen from the arbiter (C08)
+    spec.Class('LoopHandle', fields={})                     # tornado IOLoop
+    spec.Class('SockSet', fields={'all_closed': BOOL, 'size': INT})   # CircusSockets: size and its closer
     spec.Class('Command', qual='circus.commands.base:Command', fields={'properties': List(STR)})
     spec.ghost('evlog', List(PUBEV))
     # ---- the exclusive slot (C10).  SyncHost = "whatever a synchronized method is bound to":
